@@ -32,7 +32,9 @@ ALPHABET = ["a", '"', "'", "\\", "n", "é", "0"]
 PREFIXES = ["", "L", "u8", "u", "U"]
 MAXBODY = 3
 PROTOCOLS = list(range(2, pickle.HIGHEST_PROTOCOL + 1))
-HISTORY_DEEPEST = 300
+HISTORY_DEEPEST = 120
+WEAKREF_DEEPEST = 300
+WEAKREF_SMALLEST = 300
 HISTORY_MAX_CHARS = 3000
 ATTR_MODES = ["unique-string", "None", "[]", "['a','b']", "nasty-string"]
 COORD_MODES = ["Coord(file,line,column)", "Coord(file,line)", "None"]
@@ -172,9 +174,10 @@ def features(root):
     return f
 
 
-def tree_problems(root, stats, light=False):
-    """[(signature, detail)] for one tree.  light: structural comparisons only
-    (repr/eval, pickle HIGHEST, deepcopy), used by the history family."""
+def tree_problems(root, stats, light=False, protocols=None):
+    """[(signature, detail)] for one tree.  light: structural comparisons,
+    identity and leftover checks only (repr/eval, pickle HIGHEST unless
+    protocols is given, deepcopy), used by the history and weakref families."""
     from pycparser import c_ast
 
     out = []
@@ -209,7 +212,7 @@ def tree_problems(root, stats, light=False):
     except Exception as ex:  # noqa
         out.append((f"repr-eval:{_exc_what(ex)}", f"{ex!r:.200}"))
     # -- pickle --------------------------------------------------------------
-    for proto in (PROTOCOLS[-1:] if light else PROTOCOLS):
+    for proto in (protocols or (PROTOCOLS[-1:] if light else PROTOCOLS)):
         try:
             p = pickle.loads(pickle.dumps(root, proto))
             stats["rebuilds"] += 1
@@ -235,6 +238,45 @@ def tree_problems(root, stats, light=False):
         stats["python_limit"] += 1
     except Exception as ex:  # noqa
         out.append((f"deepcopy:{_exc_what(ex)}", f"{ex!r:.200}"))
+    # -- independence: identity, leftovers ----------------------------------------
+    n0, l0, k0 = mutable_objects(root)
+    own = set(n0) | set(l0) | set(k0)
+    coord_types = {type(c) for c in k0.values()}
+    if not light:
+        for nd in n0.values():
+            try:
+                if weakref.ref(nd)() is not nd:
+                    out.append((f"weakref:{nd.__class__.__name__}", "weakref.ref(node)() is not node"))
+            except TypeError as ex:
+                out.append((f"weakref:{nd.__class__.__name__}", f"{ex}"))
+        stats["weakrefs"] += len(n0)
+    for label, t, _ in rebuilt:
+        op = label.split("-")[0]
+        nt, lt, kt = mutable_objects(t)
+        shared = own & (set(nt) | set(lt) | set(kt))
+        stats["identity_checks"] += 1
+        if shared:
+            i = sorted(shared)[0]
+            kind = "node" if i in n0 else ("list" if i in l0 else "Coord")
+            out.append((f"{op}:shares-{kind}",
+                        f"{label}: {len(shared)} mutable objects shared with the original"))
+        # nothing but the declared fields may travel into a rebuilt node
+        for nd in nt.values():
+            if getattr(nd, "__weakref__", None) is not None:
+                out.append((f"{op}:rebuilt-node-carries-weakref-state", f"{label}: a rebuilt {nd.__class__.__name__} has a non-None __weakref__"))
+                break
+            if hasattr(nd, "__dict__"):
+                out.append((f"{op}:rebuilt-node-has-__dict__", f"{label}: a rebuilt {nd.__class__.__name__} carries {sorted(vars(nd))[:5]}"))
+                break
+        if op != "repr" and {type(c) for c in kt.values()} - coord_types:
+            out.append((f"{op}:coord-class-changed", f"{label}: coordinates are {sorted(x.__name__ for x in {type(c) for c in kt.values()})}"))
+        if not light:
+            for nd in nt.values():
+                try:
+                    weakref.ref(nd)
+                except TypeError as ex:
+                    out.append((f"weakref:{nd.__class__.__name__}", f"rebuilt by {label}: {ex}"))
+                    break
     if light:
         return out
     # -- generated text ------------------------------------------------------
@@ -252,31 +294,6 @@ def tree_problems(root, stats, light=False):
         stats["text_comparisons"] += 1
         if g != g0:
             out.append((f"{label.split('-')[0]}:generated-text-differs", f"{label}: {str(g0)[:120]} vs {str(g)[:120]}"))
-    # -- independence ----------------------------------------------------------
-    n0, l0, k0 = mutable_objects(root)
-    own = set(n0) | set(l0) | set(k0)
-    for nd in n0.values():
-        try:
-            if weakref.ref(nd)() is not nd:
-                out.append((f"weakref:{nd.__class__.__name__}", "weakref.ref(node)() is not node"))
-        except TypeError as ex:
-            out.append((f"weakref:{nd.__class__.__name__}", f"{ex}"))
-    stats["weakrefs"] += len(n0)
-    for label, t, _ in rebuilt:
-        nt, lt, kt = mutable_objects(t)
-        shared = own & (set(nt) | set(lt) | set(kt))
-        stats["identity_checks"] += 1
-        if shared:
-            i = sorted(shared)[0]
-            kind = "node" if i in n0 else ("list" if i in l0 else "Coord")
-            out.append((f"{label.split('-')[0]}:shares-{kind}",
-                        f"{label}: {len(shared)} mutable objects shared with the original"))
-        for nd in nt.values():
-            try:
-                weakref.ref(nd)
-            except TypeError as ex:
-                out.append((f"weakref:{nd.__class__.__name__}", f"rebuilt by {label}: {ex}"))
-                break
     for label, t, _ in rebuilt:
         scramble(t)
         stats["mutations"] += 1
@@ -401,10 +418,18 @@ def abort_by_recursion_limit(op, tree):
     if _limited(op, tree, lo):
         return 0  # so shallow that it fits into the smallest settable limit
     n = 1
-    if not _limited(op, tree, hi):
-        return n + 1  # too deep for the normal limit: that run was an aborted one as well
-    a, b = lo, hi  # fails at a, succeeds at b
-    while b - a > 2:  # every failing probe is an aborted run; the last one is at most 2 frames short
+    # grow from below (failing probes stop early, so they are cheap) ...
+    a, step = lo, 16
+    while True:
+        b = min(a + step, hi)
+        if _limited(op, tree, b):
+            break
+        n += 1
+        if b == hi:
+            return n  # too deep even for the normal limit: those runs were aborted ones
+        a, step = b, step * 2
+    # ... then bisect; every failing probe is an aborted run, the last one is at most 2 frames short
+    while b - a > 2:
         m = (a + b) // 2
         if _limited(op, tree, m):
             b = m
@@ -464,10 +489,10 @@ def abort_by_interrupt(op, tree):
         setattr(node, slot, val)
 
 
-def _history_sig(op, sig):
-    """after-aborted-<op>:<rebuild operation>:<kind of difference>.  The place
+def _history_sig(op, sig, prefix="after-aborted-"):
+    """<prefix><op>:<rebuild operation>:<kind of difference>.  The place
     (Class.field) and exception messages are dropped: what an aborted operation
-    leaves behind is not specific to a node class."""
+    (or a live weak reference) does is not specific to a node class."""
     if "|" in sig:
         head, what = sig.split("|", 1)
         op2 = head.split(":", 1)[0]
@@ -475,8 +500,8 @@ def _history_sig(op, sig):
             what = "raises-" + what.split(":", 1)[0]  # exception type only
         elif "->" in what:
             what = "becomes-" + what.split("->", 1)[1]
-        return f"after-aborted-{op}>{op2}>{what}"
-    return f"after-aborted-{op}>{sig}"
+        return f"{prefix}{op}>{op2}>{what}"
+    return f"{prefix}{op}>{sig}"
 
 
 _FIRST_BAD = []  # per process: the aborted operation after which the first failure was seen
@@ -514,6 +539,77 @@ def history_problems(make_tree, stats, modes=("recursion-limit", "interrupt")):
                 out.append((_history_sig(_FIRST_BAD[0], sig), f"[{op} aborted by {mode}; checked on a tree made after the aborted one was dropped] {det}"))
             del B
     return out
+
+
+def all_weakrefs(tree):
+    """Weak references to every node, three ways; the caller keeps them alive."""
+    from pycparser import c_ast
+
+    refs, index, parents = [], weakref.WeakValueDictionary(), weakref.WeakKeyDictionary()
+    todo = [(tree, None)]
+    while todo:
+        x, par = todo.pop()
+        if isinstance(x, c_ast.Node):
+            refs.append(weakref.ref(x))
+            index[id(x)] = x
+            parents[x] = par
+            for s in x.__slots__:
+                if s not in ("coord", "__weakref__"):
+                    todo.append((getattr(x, s), x))
+        elif isinstance(x, (list, tuple)):
+            todo.extend((e, par) for e in x)
+    return refs, index, parents
+
+
+def weakref_problems(make_tree, stats):
+    """Orders: (a) weak references to every node exist, then rebuild; they are
+    dropped, rebuild again; (b) rebuild, create the references, rebuild again."""
+    import gc
+
+    out = []
+
+    def run(t, situation, note):
+        for sig, det in tree_problems(t, stats, light=True, protocols=PROTOCOLS):
+            out.append((_history_sig(situation, sig, prefix=""), f"[{note}] {det}"))
+        stats["weakref_family_checks"] += 1
+
+    T = make_tree()
+    held = all_weakrefs(T)
+    stats["weakref_family_refs"] += 3 * len(held[0])
+    run(T, "with-live-weakrefs", "weak references to every node created first")
+    if not all(r() is not None for r in held[0]) or len(held[1]) != len(held[0]):
+        out.append(("with-live-weakrefs>references-died", "a weak reference died while the tree was alive"))
+    del held
+    gc.collect(0)
+    run(T, "after-weakrefs-dropped", "the weak references were dropped again")
+    T2 = make_tree()
+    run(T2, "before-any-weakref", "fresh tree, no weak reference yet")
+    held = all_weakrefs(T2)
+    run(T2, "with-live-weakrefs", "rebuilt once, then weak references to every node created")
+    del held
+    return out
+
+
+def _weakref_work(items):
+    sp = {s.name: s for s in astspec.read_cfg(astspec.cfg_path(core.REPO))}
+    stats = new_stats()
+    stats.update({"weakref_family_checks": 0, "weakref_family_refs": 0, "weakref_family_subjects": 0})
+    fails = []
+    for it in items:
+        if it[0] == "text":
+            _, origin, text = it
+            if core.parse_outcome(text, "pool dir/pool.c")[0] != "ok":
+                continue
+            make = lambda text=text: core.parse_outcome(text, "pool dir/pool.c")[1]  # noqa: E731
+            case = {"text": text, "origin": origin, "weakrefs": True}
+        else:
+            _, name, config = it
+            make = lambda name=name, config=config: build_config(sp[name], tuple(config), ATTR_MODES[0], COORD_MODES[0])  # noqa: E731
+            case = {"class": name, "config": list(config), "attr_mode": ATTR_MODES[0], "coord_mode": COORD_MODES[0], "weakrefs": True}
+        stats["weakref_family_subjects"] += 1
+        for sig, det in weakref_problems(make, stats):
+            fails.append((sig, case, det))
+    return stats, fails, set()
 
 
 def _history_work(items):
@@ -711,7 +807,15 @@ def run(tier):
               if any(x in ("present", "[n]", "[n,n']") for x in c)]
     n_hconf = len(hitems)
     hitems += [("text", o, t) for _, o, t in deepest]
-    st_h = sweep("history", _history_work, core.chunked(hitems, 12))
+    st_h = sweep("history", _history_work, core.chunked(hitems, 8))
+    by_size = sorted(st_p.get("depths", []), key=lambda d: (len(d[2]), d[2]))
+    chosen = {}
+    for d in by_size[:WEAKREF_SMALLEST] + [x for x in depths[:WEAKREF_DEEPEST]]:
+        chosen[d[2]] = d
+    witems = [("config", s.name, list(c)) for s in sp for c in astspec.configurations(s)]
+    n_wconf = len(witems)
+    witems += [("text", d[1], d[2]) for d in sorted(chosen.values(), key=lambda d: (len(d[2]), d[2]))]
+    st_w = sweep("weakrefs", _weakref_work, core.chunked(witems, 25))
     total.pop("depths", None)
 
     R.fail_many(regroup(collected))
@@ -722,6 +826,7 @@ def run(tier):
     if (st_p["trees"] < 60 or st_l["trees"] < len(lits) or st_l.get("lexable", 0) < 100
             or st_c["trees"] < len(confs) or any(feats.get(f, 0) == 0 for f in need)
             or set(total["classes"]) != cfg_names or total["rebuilds"] < 6 * total["trees"] * 0.9
+            or st_w.get("weakref_family_subjects", 0) < n_wconf + 100 or st_w.get("weakref_family_refs", 0) < 1000
             or st_h.get("history_cases", 0) < 3 * n_hconf
             or any(st_h.get("history_aborted", {}).get(f"{op}/{m}", 0) == 0 for op in HISTORY_OPS for m in ("recursion-limit", "interrupt"))):
         R.fail("vacuous", {"pool_trees": st_p["trees"], "literal_trees": st_l["trees"], "lexable": st_l.get("lexable"),
@@ -744,6 +849,9 @@ def run(tier):
     R.set("weakrefs_taken", total["weakrefs"])
     R.set("special_shapes", feats)
     R.set("node_classes_reached", total["classes"])
+    R.set("weakref_family_subjects", st_w.get("weakref_family_subjects", 0))
+    R.set("weakref_family_checks", st_w.get("weakref_family_checks", 0))
+    R.set("weakref_family_references_created", st_w.get("weakref_family_refs", 0))
     R.set("history_subjects", st_h.get("history_subjects", 0))
     R.set("history_cases", st_h.get("history_cases", 0))
     R.set("history_aborted_runs", st_h.get("history_aborted", {}))
@@ -756,6 +864,10 @@ def run(tier):
     R.set("bounds", {"literal_alphabet": ALPHABET, "literal_body<=": MAXBODY, "prefixes": PREFIXES,
                      "pickle_protocols": PROTOCOLS, "attr_modes": ATTR_MODES, "coord_modes": COORD_MODES,
                      "sequence_child": list(astspec.SEQ_OPTIONS), "pool": src,
+                     "weakref_family": {"configurations": "all", "deepest_pool_trees": WEAKREF_DEEPEST,
+                                        "smallest_pool_trees": WEAKREF_SMALLEST,
+                                        "references": ["list of weakref.ref", "WeakValueDictionary id->node", "WeakKeyDictionary node->parent"],
+                                        "orders": ["refs, rebuild, drop, rebuild", "rebuild, refs, rebuild"]},
                      "history": {"deepest_pool_trees": HISTORY_DEEPEST, "pool_text_below_chars": HISTORY_MAX_CHARS,
                                  "aborted_ops": HISTORY_OPS, "abort_modes": ["recursion-limit (bisected)", "interrupt (MemoryError from a field)"],
                                  "checked_on": ["same tree", "unrelated tree", "fresh tree made the same way after the aborted one was dropped"]}})
@@ -772,7 +884,9 @@ def run(tier):
         "every pool AST, every string/char Constant with body <= 3 over 7 characters x 5 prefixes (hand-built and, "
         "where the lexer accepts it, parsed), every class configuration x 5 attribute modes x 3 coord modes; each "
         "rebuilt by eval(repr), pickle protocols 2..HIGHEST and deepcopy and compared structurally (with coordinates "
-        "for pickle/deepcopy), by generated text, by object identity and under mutation. History family: for the deepest pool trees "
+        "for pickle/deepcopy), by generated text, by object identity and under mutation. Weak-reference family: for every configuration and the smallest and deepest pool trees "
+        "the structural comparison (all protocols) with weak references to every node alive, after dropping them, and rebuilt-then-referenced. "
+        "History family: for the deepest pool trees "
         "and every configuration with children, repr / pickle / deepcopy is first aborted midway (RecursionError under a bisected "
         "recursion limit, MemoryError raised from a field) and caught, then the structural comparison must hold on that tree, "
         "an unrelated one and a fresh one made after the first was dropped. evaluations = rebuilds + "
@@ -801,6 +915,14 @@ def replay(rep):
         root = build_config(sp[c["class"]], tuple(c["config"]), c["attr_mode"], c["coord_mode"])
         print("node:", repr(root))
     raw = tree_problems(root, stats)
+    if c.get("weakrefs"):
+        stats.update({"weakref_family_checks": 0, "weakref_family_refs": 0})
+        if "text" in c:
+            mk = lambda: core.parse_outcome(c["text"], "pool dir/pool.c")[1]  # noqa: E731
+        else:
+            spx = {s.name: s for s in astspec.read_cfg(astspec.cfg_path(core.REPO))}
+            mk = lambda: build_config(spx[c["class"]], tuple(c["config"]), c["attr_mode"], c["coord_mode"])  # noqa: E731
+        raw = raw + weakref_problems(mk, stats)
     if c.get("history"):
         stats.update({"history_cases": 0, "history_aborted": {}, "history_not_abortable": {}})
         if "text" in c:
